@@ -1,5 +1,5 @@
 #!/bin/bash
-export RUSTUP_TOOLCHAIN="${RUSTUP_TOOLCHAIN:-stable}"   # do not depend on rustup's default-toolchain setting
+. "$(cd "$(dirname "$0")" && pwd)/env.sh"
 # usage: tools/run_all.sh <tier> <ID>...   -> one summary line per check, logs in .build/logs/run-<ID>.log
 tier=$1; shift
 cd "$(dirname "$0")/.."
